@@ -405,6 +405,7 @@ Proof.
   assert (Hc : forall s5, tstab s5 (if eff_cancelled s5 (g_scope (groups s5 g)) then s5
                                    else scope_cancel s5 (g_scope (groups s5 g)) false)).
   { intros s5. destruct (eff_cancelled s5 _); [apply tstab_refl|apply tstab_scope_cancel]. }
+  assert (Hsc : forall s5, tstab s5 (scope_cancel s5 (g_scope (groups s5 g)) false)) by (intros s5; apply tstab_scope_cancel).
   assert (Ha : forall e, tstab s4 (upd_group s4 g (add_exc t e))) by (intros e; by_eq).
   destruct (k_done (tasks s0 t)) as [[v|e|e]|].
   - destruct (k_startfut (tasks s0 t)) as [f|]; [|apply tstab_refl].
@@ -412,17 +413,17 @@ Proof.
   - destruct (k_startfut (tasks s0 t)) as [f|].
     + destruct (f_st (futs s4 f)).
       * apply tstab_fc.
-      * destruct (is_cancel e); [apply Hc|]. eapply tstab_trans; [apply Ha|apply Hc].
-      * destruct (is_cancel e); [apply Hc|]. eapply tstab_trans; [apply Ha|apply Hc].
-      * destruct (is_cancel e); [apply tstab_refl|]. eapply tstab_trans; [apply Ha|apply Hc].
-    + destruct (is_cancel e); [apply Hc|]. eapply tstab_trans; [apply Ha|apply Hc].
+      * destruct (is_cancel e); [apply Hc|]. eapply tstab_trans; [apply Ha|apply Hsc].
+      * destruct (is_cancel e); [apply Hc|]. eapply tstab_trans; [apply Ha|apply Hsc].
+      * destruct (is_cancel e); [apply tstab_refl|]. eapply tstab_trans; [apply Ha|apply Hsc].
+    + destruct (is_cancel e); [apply Hc|]. eapply tstab_trans; [apply Ha|apply Hsc].
   - destruct (k_startfut (tasks s0 t)) as [f|].
     + destruct (f_st (futs s4 f)).
       * apply tstab_fc.
-      * destruct (is_cancel e); [apply Hc|]. eapply tstab_trans; [apply Ha|apply Hc].
-      * destruct (is_cancel e); [apply Hc|]. eapply tstab_trans; [apply Ha|apply Hc].
-      * destruct (is_cancel e); [apply tstab_refl|]. eapply tstab_trans; [apply Ha|apply Hc].
-    + destruct (is_cancel e); [apply Hc|]. eapply tstab_trans; [apply Ha|apply Hc].
+      * destruct (is_cancel e); [apply Hc|]. eapply tstab_trans; [apply Ha|apply Hsc].
+      * destruct (is_cancel e); [apply Hc|]. eapply tstab_trans; [apply Ha|apply Hsc].
+      * destruct (is_cancel e); [apply tstab_refl|]. eapply tstab_trans; [apply Ha|apply Hsc].
+    + destruct (is_cancel e); [apply Hc|]. eapply tstab_trans; [apply Ha|apply Hsc].
   - destruct (k_startfut (tasks s0 t)) as [f|]; [|apply tstab_refl].
     destruct (f_st (futs s4 f)); try apply tstab_refl. apply tstab_fc.
 Qed.
